@@ -59,6 +59,23 @@ Fixpoint since_loop (b e : nat) (bl br : list V) (l : list (V * V)) : list V :=
       since_window b e bl' br' :: since_loop b e bl' br' xs
   end.
 
+(* the inner double loop of visitTimedPrecedes / PrecedesTimedOperation.update on the two buffers:
+   for j in range(begin, end+1): c_left = min(buffer_left[0..j-1]); out = max(out, min(c_left, buffer_right[j])) *)
+Definition precedes_window (b e : nat) (bl br : list V) : V :=
+  fold_left (fun out j =>
+      let c_left := fold_left (fun c k => vmin c (nth k bl bot)) (seq 0 j) top in
+      vmax out (vmin c_left (nth j br bot)))
+    (seq b (S e - b)) bot.
+
+(* visitTimedPrecedes: loop over samples pushing into both buffers *)
+Fixpoint precedes_loop (b e : nat) (bl br : list V) (l : list (V * V)) : list V :=
+  match l with
+  | [] => []
+  | (x, y) :: xs =>
+      let bl' := push bl x in let br' := push br y in
+      precedes_window b e bl' br' :: precedes_loop b e bl' br' xs
+  end.
+
 Definition timed_future (pad : V) (agg : list V -> V) (b e : nat) (s0 : list V) : list V :=
   let sample_len := length s0 in
   let s := if sample_len <=? e then s0 ++ repeat pad (e - sample_len + 1) else s0 in
@@ -110,7 +127,9 @@ Fixpoint eval_off (p : formula) (w : trace) (n : nat) {struct p} : list V :=
   | UntilT b e f g =>
       rev (since_loop b e (repeat top (S e)) (repeat bot (S e))
                       (rev (combine (eval_off f w n) (eval_off g w n))))
-  | Precedes _ _ _ _ => []   (* 'Offline does not need visitTimedPrecedes': rejected, see off_supported *)
+  | Precedes b e f g =>
+      precedes_loop b e (repeat top (S e)) (repeat bot (S e))
+                    (combine (eval_off f w n) (eval_off g w n))
   end.
 
 End Offline.
@@ -125,7 +144,8 @@ Variable pk : formula -> formula -> pkind.
 
 (* AbstractDiscreteTimeOfflineInterpreter.evaluate: length = len(dataset['time']),
    result = [[t, v] for t, v in zip(ts, rob)]; the time-stamps (any type T) are
-   only paired with the values.  TimedPrecedes is rejected by the visitor. *)
+   only paired with the values.  Every node has a visit method that returns a column
+   (TimedPrecedes included: a pastified specification is evaluated like any other). *)
 Definition evaluate {T : Type} (p : formula) (ts : list T) (w : trace) : outcome (list (T * V)) :=
-  if no_precedes p then Ok (combine ts (eval_off AR pk p w (length ts))) else Rtamt.
+  Ok (combine ts (eval_off AR pk p w (length ts))).
 End Evaluate.
